@@ -6,7 +6,7 @@ CFG = {
                    "GeoModel/RelateSpec.lean", "GeoModel/Valid.lean", "GeoModel/Gen/Masks.lean", "GeoModel/Gen/Enums.lean",
                    "GeoModel/Ops/C02.lean", "GeoProofs/Lemmas/SegmentSpec.lean", "GeoProofs/Lemmas/RingSpec.lean",
                    "GeoProofs/Lemmas/LocateLemmas.lean", "GeoProofs/Lemmas/C02QContains.lean", "GeoProofs/Lemmas/C02QWinding.lean",
-                   "GeoProofs/Lemmas/C02QHoles.lean"],
+                   "GeoProofs/Lemmas/C02QHoles.lean", "GeoProofs/Lemmas/C02QPerturb.lean"],
     "rule": "2/3 of the cases: ordered pairs (A, B) over all 10 types (both through the Geometry enum) from one shared grid, B drawn independently or "
             "from A's own vertices / edge midpoints / edges (so containment is frequent): intersects(A,B), intersects(B,A), contains(A,B), is_within(A,B); "
             "1/3: coordinate_position(G, p) with p a vertex, an edge midpoint or a half-grid point. Three-way comparison per case: implementation, "
@@ -43,7 +43,8 @@ MANIFEST = {
             "every elementary sub-segment of a hole edge, and BE = F in polyValid gives hypothesis H1 (hole_ring_in_shell: no point of a hole ring is Outside the "
             "shell ring); coordinate_position = locate and contains(Point) = mask for every OGC-valid polygon under H2 alone "
             "(coordPos_polygon_eq_locate_valid_partial, containsM_polygon_point_valid_partial) and with no hypothesis for at most one hole "
-            "(coordPos_polygon_eq_locate_one_hole). LineString::contains(Point) with >= 2 coordinates (index argument over enumerate(); witness for the "
+            "(coordPos_polygon_eq_locate_one_hole); off a closed ring the winding number of a point perturbed by the symbolic infinitesimal is that of the point "
+            "(windingE_perturb, first half of what H2 needs). LineString::contains(Point) with >= 2 coordinates (index argument over enumerate(); witness for the "
             "one-coordinate case) and the fixed MultiLineString::contains(Point) (all member lists) equal the mask on the specification; Rect::contains(Rect) "
             "<=> every point of the inner closed rect is in the outer one (witness: not the DE-9IM mask for a zero-width Rect, K7); Line::contains(Line) <=> both "
             "end points <=> every point of the inner segment on the outer one (inner line a single point: located in the interior of the outer line). "
